@@ -583,6 +583,40 @@ def _align(tmpl_toks, real_toks):
     return pos, ops
 
 
+_IDENT = re.compile(r"^[A-Za-z_][A-Za-z0-9_]*$")
+_KEYWORDS = set("as break const continue crate else enum extern false fn for if impl in let loop match mod move mut pub ref return self Self static struct super trait true type unsafe use where while dyn".split())
+
+
+def _renames(t_toks, r_toks, ops):
+    cand = {}
+    bad = set()
+    for tag, i1, i2, j1, j2 in ops:
+        if tag != "replace" or (i2 - i1) != (j2 - j1):
+            continue
+        for d in range(i2 - i1):
+            a, b = t_toks[i1 + d], r_toks[j1 + d]
+            if a == b:
+                continue
+            if not (_IDENT.match(a) and _IDENT.match(b)) or a in _KEYWORDS or b in _KEYWORDS:
+                continue
+            if not (a[0].islower() or a[0] == "_") or not (b[0].islower() or b[0] == "_"):
+                continue  # locals only (types, variants and constants are not renamed by this rule)
+            if cand.get(a, b) != b:
+                bad.add(a)
+            cand[a] = b
+    out = {}
+    for a, b in cand.items():
+        if a in bad:
+            continue
+        # every occurrence of a in the template must have become b, and b must be new
+        if a in r_toks or b in t_toks:
+            continue
+        if t_toks.count(a) != r_toks.count(b):
+            continue
+        out[a] = b
+    return out
+
+
 class _Block:
     """a `{ .. }` block inside a function, presented like an Item; with `upto`, the block is cut before the statement that starts with
     the given token prefix and closed with a synthetic `}` (the statements after the cut are not part of the verified text)"""
@@ -637,6 +671,7 @@ def expand(template_text, repo_root, read=None):
     out, report = [], []
     i = 0
     rule_outline.captured = []
+    all_renames = {}
     while i < len(lines):
         m = _ITEM_RE.match(lines[i])
         if not m:
@@ -657,7 +692,12 @@ def expand(template_text, repo_root, read=None):
             if idx >= len(rule_outline.captured):
                 raise TransplantError("outlined region %s: nothing captured" % name)
             body = rule_outline.captured[idx]
-            txt = "\n".join(region).replace("/*@OUTLINED@*/", body)
+            txt = "\n".join(region)
+            if all_renames:
+                # the helper's template text names the locals of the outlined statement: it follows the renames found in the items
+                arx = re.compile(r"\b(%s)\b" % "|".join(re.escape(k) for k in all_renames))
+                txt = arx.sub(lambda m: all_renames[m.group(1)], txt)
+            txt = txt.replace("/*@OUTLINED@*/", body)
             out.append(txt)
             report.append({"item": "outlined " + name, "file": attrs.get("file", ""), "trusted": True,
                            "sha256": hashlib.sha256(body.encode()).hexdigest()[:16], "text": body,
@@ -687,8 +727,18 @@ def expand(template_text, repo_root, read=None):
         if item.attrs_text.strip():
             fired.append({"rule": "R1", "n": 1, "note": "attributes dropped: " + " ".join(item.attrs_text.split())})
         rules_s = attrs.get("rules", "")
+        # rule arguments name locals as the template knows them: a preliminary alignment (before any rule) finds renamed locals, and the
+        # rule arguments follow them
+        pre_exec, _pre_blocks = _split_region(region)
+        _pp, pre_ops = _align(rs.norm(pre_exec), rs.texts(rs.tokenize(real)))
+        pre_ren = _renames(rs.norm(pre_exec), rs.texts(rs.tokenize(real)), pre_ops)
+        pre_ren = {a: b for a, b in pre_ren.items() if not re.search(r"\b%s\b" % re.escape(b), rules_s)}
+        if pre_ren:
+            prx = re.compile(r"\b(%s)\b" % "|".join(re.escape(k) for k in pre_ren))
         for r in [x.strip() for x in (rules_s.split(";;") if ";;" in rules_s else rules_s.split(";")) if x.strip()]:
             rname, _, rarg = r.partition(":")
+            if pre_ren:
+                rarg = prx.sub(lambda m: pre_ren[m.group(1)], rarg)
             if rname not in RULES:
                 raise TransplantError("unknown rule " + rname)
             try:
@@ -704,6 +754,15 @@ def expand(template_text, repo_root, read=None):
         r_toks = rs.texts(r_tokobjs)
         pos, ops = _align(t_toks, r_toks)
         identical = t_toks == r_toks
+        # renamed locals: an identifier of the template that is replaced by ONE other identifier at every occurrence (and that new name is
+        # not used in the template for anything else) is a rename; the annotations follow it
+        renames = _renames(t_toks, r_toks, ops)
+        all_renames.update(pre_ren)
+        all_renames.update(renames)
+        if renames:
+            rx = re.compile(r"\b(%s)\b" % "|".join(re.escape(k) for k in renames))
+            blocks = [(n, rx.sub(lambda m: renames[m.group(1)], ann)) for (n, ann) in blocks]
+            fired.append({"rule": "RN", "n": len(renames), "note": "locals renamed on this tree, annotations follow: " + ", ".join("%s->%s" % kv for kv in sorted(renames.items()))})
         inserts = {}
         dropped_blocks = []
         # proof hints = annotation blocks INSIDE the body; the block in front of the body's opening brace is the contract itself
